@@ -464,7 +464,7 @@ func c17Registry(r *Result, rng randLike, n int) {
 	plain := []string{"Name", "Count", "Region", "Size"}
 	secretName := names[rng.IntN(len(names))]
 	tag := []string{"", `coerce:"secure"`, `coerce:"ignore"`, `json:"x"`}[rng.IntN(4)]
-	depth := rng.IntN(6) // 0: top level, 1: nested struct, 2: non-nil pointer to nested struct, 3: nil pointer, 4: slice of structs, 5: map of structs
+	depth := rng.IntN(8) // 0: top level, 1: nested struct, 2: non-nil pointer to nested struct, 3: nil pointer, 4: slice of structs, 5: map of structs, 6/7: declared after a clean struct / non-nil pointer-to-struct sibling
 	inResp := rng.IntN(2) == 0
 	leaf := reflect.StructOf([]reflect.StructField{{Name: plain[rng.IntN(4)], Type: strType}, {Name: secretName, Type: strType, Tag: reflect.StructTag(tag)}})
 	var top reflect.Type
@@ -477,14 +477,25 @@ func c17Registry(r *Result, rng randLike, n int) {
 		top = reflect.StructOf([]reflect.StructField{{Name: "Inner", Type: reflect.PointerTo(leaf)}})
 	case 4:
 		top = reflect.StructOf([]reflect.StructField{{Name: "Items", Type: reflect.SliceOf(leaf)}})
-	default:
+	case 5:
 		top = reflect.StructOf([]reflect.StructField{{Name: "Items", Type: reflect.MapOf(strType, leaf)}})
+	default:
+		// the field loop must go on after it has looked into a struct-kind sibling that holds nothing secret
+		clean := reflect.StructOf([]reflect.StructField{{Name: "Region", Type: strType}, {Name: "Count", Type: reflect.TypeOf(0)}})
+		sib := clean
+		if depth == 7 {
+			sib = reflect.PointerTo(clean)
+		}
+		top = reflect.StructOf([]reflect.StructField{{Name: "Meta", Type: sib}, {Name: plain[rng.IntN(4)], Type: strType}, {Name: secretName, Type: strType, Tag: reflect.StructTag(tag)}})
 	}
 	val := reflect.New(top).Elem()
 	if depth == 2 {
 		val.Field(0).Set(reflect.New(leaf))
 	}
-	how := []string{"top level", "nested struct", "non-nil pointer", "nil pointer", "slice of structs", "map of structs"}[depth]
+	if depth == 7 {
+		val.Field(0).Set(reflect.New(top.Field(0).Type.Elem()))
+	}
+	how := []string{"top level", "nested struct", "non-nil pointer", "nil pointer", "slice of structs", "map of structs", "after a clean struct sibling", "after a non-nil pointer-to-struct sibling"}[depth]
 	ok := reflect.New(reflect.StructOf([]reflect.StructField{{Name: "Name", Type: strType}})).Elem().Interface()
 	pl := regPlugin{req: val.Interface(), resp: ok}
 	if inResp {
